@@ -1048,3 +1048,33 @@ impl<'de> serde::de::Visitor<'de> for DataVisitor<'_> {
         Ok(())
     }
 }
+
+#[cfg(feature = "verif-dump")]
+impl AnnotationDataSet {
+    /// Read-only dump of the dataset and its private indices (verification hook)
+    pub fn verif_dump(&self) -> serde_json::Value {
+        serde_json::json!({
+            "handle": self.intid.map(|h| h.as_usize()),
+            "id": self.id,
+            "filename": self.filename,
+            "changed": self.changed.read().map(|x| *x).ok(),
+            "keys": self.keys.iter().map(|k| match k {
+                Some(k) => serde_json::json!([k.handle().map(|h| h.as_usize()), k.id()]),
+                None => serde_json::Value::Null,
+            }).collect::<Vec<_>>(),
+            "data": self.data.iter().map(|d| match d {
+                Some(d) => serde_json::json!([
+                    d.handle().map(|h| h.as_usize()),
+                    d.id(),
+                    d.key.as_usize(),
+                    serde_json::to_value(d.value()).unwrap_or(serde_json::Value::String("<unserializable>".into())),
+                ]),
+                None => serde_json::Value::Null,
+            }).collect::<Vec<_>>(),
+            "key_idmap": self.key_idmap.verif_dump(),
+            "data_idmap": self.data_idmap.verif_dump(),
+            "key_data_map": self.key_data_map.verif_dump(),
+            "serialize_mode": format!("{:?}", self.config.serialize_mode.read().map(|x| *x).ok()),
+        })
+    }
+}
